@@ -28,6 +28,11 @@ Jobs ==
      [src |-> "mark\nlet a = 1 let b = 2", ops |-> <<<<"inst", "m">>, <<"inst", "m">>, <<"mode", TRUE, FALSE>>, <<"build">>, <<"parse">>, <<"build">>, <<"parse">>, <<"build">>, <<"parse">>>>],
      [src |-> "f(a)\n(b)\n@ a", ops |-> <<<<"tok", "DYN1">>, <<"prefix", "DYN1">>, <<"inst", "r">>, <<"inst", "s">>, <<"mode", FALSE, TRUE>>, <<"parse">>, <<"mode", FALSE, FALSE>>, <<"parse">>>>],
      [src |-> "let s = \"caf\\xe9 \\u00e9 \\u{1F600}\" + 'x\\x41'\nprint(s)", ops |-> <<<<"parse">>, <<"compile", "compact">>, <<"compile", "pretty:tab:nosemi">>>>],
+     \* a parser built first, its builder reconfigured / extended afterwards, the parser used after that
+     [src |-> "let a = 1 let b = 2\n(c)\n{ d", ops |-> <<<<"mode", TRUE, TRUE>>, <<"build">>, <<"mode", FALSE, FALSE>>, <<"parse">>,
+                                                        <<"build">>, <<"mode", TRUE, FALSE>>, <<"parse">>, <<"compile", "compact">>>>],
+     [src |-> "mark\nx = a ^ b ! c", ops |-> <<<<"tok", "DYN0">>, <<"build">>, <<"infix", "DYN0", 8>>, <<"inst", "m">>, <<"postfix", "NOT">>, <<"parse">>,
+                                              <<"build">>, <<"parse">>>>],
      [src |-> "a + b ( c ) : d", ops |-> <<<<"infix", "COLON", 2>>, <<"prefix", "MULTIPLY">>, <<"parse">>, <<"compile", "pretty:tab:nosemi+map">>, <<"compile", "compact">>>>] >>
 
 \* tokens the parser pulls for a source of the pool (current + peek primed at Build, one per NextToken)
